@@ -119,6 +119,8 @@ type Node struct {
 	ParallelMultiple bool
 	Attached         string
 	Interrupting     bool
+	// Extra: further attributes of the element, verbatim (descriptive attributes without token semantics)
+	Extra string
 }
 
 type SeqFlow struct {
@@ -218,6 +220,24 @@ func (g *Graph) ShuffleDecl(next func(n int) int) {
 		j := next(i + 1)
 		g.Nodes[i], g.Nodes[j] = g.Nodes[j], g.Nodes[i]
 	}
+	g.DecorateInert(next)
+}
+
+// DecorateInert gives nodes descriptive attributes that carry NO token semantics in this engine (a gateway's behaviour
+// is defined by its incoming and outgoing flows, whatever `gatewayDirection` says; a `name` is documentation): a
+// program must run the same with and without them.
+func (g *Graph) DecorateInert(next func(n int) int) {
+	dirs := []string{"", "Unspecified", "Converging", "Diverging", "Mixed"}
+	for _, n := range g.Nodes {
+		if strings.HasSuffix(n.Kind, "Gateway") {
+			if d := dirs[next(len(dirs))]; d != "" {
+				n.Extra += fmt.Sprintf(" gatewayDirection=%q", d)
+			}
+		}
+		if next(4) == 0 {
+			n.Extra += fmt.Sprintf(" name=%q", "the "+n.Kind+" "+n.ID)
+		}
+	}
 }
 
 // XML renders the graph as a BPMN document with a single process.
@@ -263,6 +283,7 @@ func (g *Graph) container(sb *strings.Builder, parent string) {
 		if n.ParallelMultiple {
 			sb.WriteString(" parallelMultiple=\"true\"")
 		}
+		sb.WriteString(n.Extra)
 		sb.WriteString(">\n")
 		if len(n.Results) > 0 || len(n.Outputs) > 0 || n.HasTaskDef {
 			sb.WriteString("<bpmn:extensionElements>\n")
